@@ -521,4 +521,73 @@ theorem dispatch_test_acc (c : Model.X86.Ctx) (row : Row) (k : RegKind) (v : Bit
     simp [dispatch, henc, sig3, Op.kind, Op.id, Op.rmSize, Op.immVal, rtypeOf, hks.1, hks.2.1, hks.2.2.1, hks.2.2.2, accOpcOf, accImmOf, fixupGpb, Op.isGp8Hi,
       oLongForm, r32, addArithBySize, kPP_66, kW] <;> congr 1 <;> bv_decide
 
+/-! ### class X86Rot: shift / rotate a register by CL (`D2|D3 /d`) or by 1 (`D0|D1 /d`) -/
+
+/-- the form's second operand is the fixed register CL (otherwise it is the implied constant 1) -/
+def clEntry (e : Entry) : Bool :=
+  match e.rule.ops with
+  | [_, f1] => formOpMatches e.rule.oszEff f1 (.reg .gpb 1)
+  | _ => false
+
+/-- the opcode word: main opcode by size (`D0|D1`), `+ 2` for the shift by CL -/
+def rotXOpc (e : Entry) : BitVec 32 :=
+  addArithBySize e.mainOp (kindSize (e.kinds.getD 0 .none)) + (if clEntry e then 2#32 else 0#32)
+
+def entryOkRotX (e : Entry) : Bool :=
+  match e.rule.ops, e.kinds with
+  | [f0, f1], [k0] =>
+    e.enc == 0x37 && (legRuleDOk e.rule 0 ((rotXOpc e >>> 21) &&& 3#32).toNat (digitOf e).toNat && (legAgreeOk e.rule (rotXOpc e) &&
+    (f0.role == .rm && (f1.role == .none && (gpKindOk k0 && (noFix f0 && formOpMatches e.rule.oszEff f0 (.reg k0 0)))))))
+  | _, _ => false
+
+theorem rotx_entries_ok : lrotxChunks.all (fun c => c.all entryOkRotX) = true := by decide +kernel
+
+/-- **front_cls_correct, class X86Rot, `op reg, cl` and `op reg, 1`** (rol / ror / rcl / rcr / shl / shr / sar): ALL registers of ALL sizes
+including AH..BH and SPL..DIL; the second operand is whatever the form's fixed operand admits (the register CL, resp. the constant 1) and is
+not encoded. -/
+theorem front_cls_correct_rot_x (e : Entry) (ch : List Entry) (hch : ch ∈ lrotxChunks) (he : e ∈ ch)
+    (ctx : Spec.X86.Ctx) (r0 : BitVec 32) (o1 : Operand) (imm : BitVec 64) (hm64 : ctx.mode64 = true) (h0 : r0 < 16#32)
+    (hhi : ∀ k0, e.kinds = [k0] → k0 = .gpbhi → r0 < 4#32)
+    (ho1 : (∃ v, o1 = .imm v) ∨ (∃ k i, o1 = .reg k i))
+    (hm1 : ∀ f1, e.rule.ops[1]? = some f1 → formOpMatches e.rule.oszEff f1 o1 = true)
+    (bytes : List (BitVec 8)) :
+    ∃ k0, e.kinds = [k0] ∧
+      (emitX86R (rotXOpc e) (fix1 k0 r0).1 (digitOf e) (fix1 k0 r0).2 imm 0 = .ok bytes →
+        formOk ctx e.rule [.reg k0 r0.toNat, o1] {} bytes = true) := by
+  have hok := mem_chunks_ok rotx_entries_ok e ch hch he
+  unfold entryOkRotX at hok
+  split at hok
+  · rename_i f0 f1 k0 hops hkinds
+    simp only [Bool.and_eq_true, beq_iff_eq, Bool.not_eq_true'] at hok
+    obtain ⟨-, hR, hA, ra, r1, hk, n0, m0⟩ := hok
+    obtain ⟨A, hmask⟩ := legAgreeOk_spec _ _ hA
+    have R := legRuleDOk_spec _ _ _ _ hR
+    have m1 : formOpMatches e.rule.oszEff f1 o1 = true := hm1 f1 (by rw [hops]; rfl)
+    have hal : alignOps e.rule.oszEff e.rule.ops [.reg k0 r0.toNat, o1] = some [(f0, some (.reg k0 r0.toNat)), (f1, some o1)] := by
+      rw [hops]
+      exact alignOps2 _ _ _ _ _ (by rw [formOpMatches_reg_nofix _ _ _ _ n0]; exact m0) m1
+    refine ⟨k0, hkinds, ?_⟩
+    intro hb
+    have hd : digitOf e < 8#32 := by simp only [digitOf]; bv_decide
+    exact rmAny_formOk ctx e.rule (rotXOpc e) (digitOf e) r0 k0 f0 f1 o1 imm 0 hm64 (by simpa using R.hmodes) hmask (gpKindOk_spec _ hk) hd h0
+      (hhi k0 hkinds) R A ra ho1 (by intro p _; simp [opConds, r1, allOk]) hal bytes hb
+  · simp at hok
+
+/-- the class switch reaches exactly this emission for `op reg, cl` -/
+theorem dispatch_rot_cl (c : Model.X86.Ctx) (row : Row) (k0 : RegKind) (i0 : Nat) (henc : row.encoding = 0x37)
+    (hk : k0 = .gpb ∨ k0 = .gpbhi ∨ k0 = .gpw ∨ k0 = .gpd ∨ k0 = .gpq) :
+    dispatch c row 0#32 (.reg (rtypeOf k0) i0) (.reg (rtypeOf .gpb) 1) .none .none =
+      emitX86R (addArithBySize row.mainOp (kindSize k0) + 2#32) (fix1 k0 (r32 i0)).1 ((row.mainOp >>> 18) &&& 7#32) (fix1 k0 (r32 i0)).2 0 0 := by
+  rcases hk with h | h | h | h | h <;> subst h <;>
+    simp [dispatch, henc, sig3, Op.kind, Op.id, Op.rmSize, Op.immVal, rtypeOf, kindSize, fix1, fixK, fixupGpb, Op.isGp8Hi]
+
+/-- the class switch reaches exactly this emission for `op reg, imm` with (imm & 0xFF) = 1 (no encoding options): the short shift-by-1 form,
+no immediate byte -/
+theorem dispatch_rot_1 (c : Model.X86.Ctx) (row : Row) (k0 : RegKind) (i0 : Nat) (imm : BitVec 64) (henc : row.encoding = 0x37)
+    (hk : k0 = .gpb ∨ k0 = .gpbhi ∨ k0 = .gpw ∨ k0 = .gpd ∨ k0 = .gpq) (h1 : imm &&& 0xFF#64 = 1#64) :
+    dispatch c row 0#32 (.reg (rtypeOf k0) i0) (.imm imm) .none .none =
+      emitX86R (addArithBySize row.mainOp (kindSize k0)) (fix1 k0 (r32 i0)).1 ((row.mainOp >>> 18) &&& 7#32) (fix1 k0 (r32 i0)).2 (imm &&& 0xFF#64) 0 := by
+  rcases hk with h | h | h | h | h <;> subst h <;>
+    simp [dispatch, henc, sig3, Op.kind, Op.id, Op.rmSize, Op.immVal, rtypeOf, kindSize, fix1, fixK, fixupGpb, Op.isGp8Hi, h1, oLongForm]
+
 end AsmjitVerif.Props.C01
